@@ -10,7 +10,7 @@
 import os
 import vf
 
-IMPORTS = ["From ZV Require Import Lib.Base Model.Query Model.Parser."]
+IMPORTS = ["From ZV Require Import Model.Regex.", "From ZV Require Import Lib.Base Model.Query Model.Parser."]
 RULE = ("regression corpus + ALL strings of <= 3 (thorough: 4) symbols over the 12-symbol alphabet "
         "( ) \" \\ - : space or a f:  case:yes type:repo meta.k:  (finite sweep) + random: queries generated from the "
         "EBNF of doc/query_syntax.md, the same with one random edit, and 4-12 random symbols incl. invalid UTF-8 / NUL / tab / newline; "
